@@ -310,6 +310,21 @@ def replay(beh, idx, seed):
     r2b = run_phase(body, 'apply', variables, cfg['streams'], mutable)
     if r2b['status'] != r2['status'] or r2b['log'] != r2['log'] or not np.array_equal(r2b['out'], r2['out']):
       add('C01', f'{what}: repeating the call with the same inputs gives a different result')
+    # the same module *instance* called again (init's instance and apply's instance): nothing may be cached on the object
+    for inst_name, inst in (('the instance used for init', r1['module']), ('the instance used for the first apply', r2['module'])):
+      try:
+        log4 = []
+        rr = inst.apply(variables, log4, rngs=rngs_for(cfg['streams']) or None, mutable=mutable)
+        o4 = rr[0] if (mutable is not False) else rr
+        log4.append({'k': 'ret'})
+        _maps_ok(log4)
+        if r2['status'] == 'returned' and (not np.array_equal(np.asarray(o4), r2['out']) or log4 != r2['log']):
+          add('C01', f'{what}: calling {inst_name} again gives a different result than a fresh instance')
+        if inst.scope is not None:
+          add('C01', f'{what}: {inst_name} is left bound after the call')
+      except Exception as e:
+        if r2['status'] == 'returned':
+          add('C01', f'{what}: calling {inst_name} again raised {type(e).__name__} although a fresh instance returns')
     # observation features are inert: same primary output with intermediates / perturbations captured or not
     if cfg['edit'] == 'none':
       other = set(cfg['mut']) ^ {'intermediates'}
